@@ -1145,14 +1145,28 @@ class Interp:
 
     def ex_Dict(self, e, env):
         d = {}
+        items = []
         for k, v in zip(e.keys, e.values):
             if k is None:
                 raise Unsupported("dict unpacking literal")
-            kk = self.eval_expr(k, env)
-            if is_sym(kk):
-                raise Unsupported("symbolic key in dict literal")
-            d[kk] = self.eval_expr(v, env)
-        return d
+            items.append((self.eval_expr(k, env), self.eval_expr(v, env)))
+        if not any(is_sym(kk) or (isinstance(kk, tuple) and any(is_sym(x) for x in kk)) for kk, _ in items):
+            for kk, vv in items:
+                d[kk] = vv
+            return d
+        # a literal with symbolic keys, e.g. {c: 1}: a symbolic dict built by successive stores (a later equal
+        # key overwrites an earlier one, as in python)
+        kty = self.type_of(items[0][0])
+        vty = self.type_of(items[0][1])
+        if isinstance(vty, type(None)) or any(self.type_of(kk) != kty or self.type_of(vv) != vty for kk, vv in items):
+            raise Unsupported("dict literal with symbolic keys of mixed types")
+        has = z3.K(kty.sort(), z3.BoolVal(False))
+        val = z3.K(kty.sort(), self.default_term(vty))
+        for kk, vv in items:
+            kt = self.unwrap(kk, kty)
+            has = z3.Store(has, kt, z3.BoolVal(True))
+            val = z3.Store(val, kt, self.unwrap(vv, vty))
+        return SymDict(has, val, kty, vty, "literal")
 
     def ex_Lambda(self, e, env):
         return self.make_func(e, env, self._current_module(), "<lambda>")
